@@ -57,14 +57,20 @@ def run_ground(res, repo, task, findings):
     out['violations'] = len(viol)
     res.ground.append(out)
     new = []
+    counts = {}
     for v in viol:
         known = [f for f in findings if f['property'] == res.pid and f.get('ground') == task and
                  all(v.get(k) == val for k, val in f.get('match', {}).items())]
         if known:
+            fid = json.dumps(known[0].get('match', {}), sort_keys=True)
+            counts[fid] = counts.get(fid, 0) + 1
+            if counts[fid] > known[0].get('max_count', 10 ** 9):
+                new.append(dict(v, beyond_known_finding=known[0]['what'][:80]))   # more than the finding lists
+                continue
             line = 'KNOWN-FINDING: property=%s %s' % (res.pid, known[0]['what'])
             if line not in res.known:
                 res.known.append(line)
-            res.excluded_by_known.append('ground:%s:%s' % (task, json.dumps(known[0].get('match', {}), sort_keys=True)))
+            res.excluded_by_known.append('ground:%s:%s' % (task, fid))
         else:
             new.append(v)
     if new:
